@@ -225,6 +225,15 @@ func c19TypeErr(c *fw.Case) {
 					r["arr"] = []any{map[string]any{"e": 1.0, "f": "p"}}
 				}
 			}
+			if strings.HasPrefix(q.name, "parpanic.") {
+				if len(d.t.Rows) < 4 || len(d.u.Rows) < 1 {
+					continue
+				}
+				d.t.Rows[2]["z1"] = nil // the panic is neither the first nor the last evaluation
+				for i, r := range d.t.Rows {
+					r["n1"] = float64(100 + i) // distinct keys: one key group per row
+				}
+			}
 			if strings.HasPrefix(q.name, "badrow.") {
 				if len(d.t.Rows) < 3 {
 					continue
